@@ -238,7 +238,9 @@ theorem T2_stmt :
   | .store w e, st, h => T2_store hT2 st w e h
   | .jump e, st, h => T2_jump hT2 st e h
   | .skip w, st, _ => by simp only [compileStmt]
-  | .exprstmt e, st, _ => by simp only [compileStmt]
+  | .exprstmt e, st, h => by
+      simp only [CarveS] at h
+      simp only [compileStmt, T2_expr hT2 h]
   | .ret e, st, _ => by simp only [compileStmt]
   | .vcall _ _ _ _, st, _ => by simp only [compileStmt]
   | .ite c t none, st, h => by
